@@ -324,7 +324,9 @@ func mutate(doc *node, m string) *node {
 
 // ---- placements of a status on a response or a propstat
 
-var placeCodes = []string{"403", "404", "500", "507", "garbage", "200", "201", "204", "207", "199", "301", "", "HTTP/1.1 404", "HTTP/2 404 Not Found"}
+var placeCodes = []string{"403", "404", "500", "507", "garbage", "200", "201", "204", "207", "199", "301", "", "HTTP/1.1 404", "HTTP/2 404 Not Found",
+	// no reason phrase, two fields only, trailing blank, doubled blank
+	"HTTP/1.1 200", "HTTP/1.1 200 ", "HTTP/1.1 207", "HTTP/1.1 404 ", "HTTP/1.1  200 OK", "HTTP/1.1", "200 OK"}
 
 func placements(doc *node) []string {
 	var out []string
